@@ -30,6 +30,8 @@ deriving DecidableEq, Repr, Inhabited
 structure Cons where
   state : CState
   mode : Mode
+  /-- `eoc_len`: size of the end-of-contents marker once it has been read -/
+  eoc : Nat := 0
 deriving DecidableEq, Repr, Inhabited
 
 inductive Content
@@ -125,12 +127,14 @@ def Content.exhausted : Content → Prog Unit
     been read: end-of-contents handling, then the definite / indefinite arm that narrows the limit,
     runs the closure, checks exhaustion and restores the limit -/
 def processValueBody (c : Cons) (op : Tag → Content → Prog (α × Content))
-    (tag : Tag) (constructed : Bool) (length : Length) : Prog (Option α × Cons) := do
+    (header : Nat) (tag : Tag) (constructed : Bool) (length : Length) : Prog (Option α × Cons) := do
   if tag = Tag.END_OF_VALUE then
     if c.state = .indefinite then
       if constructed then contentErr
       else if !length.isZero then contentErr
-      else return (none, { c with state := .done })
+      else
+        let here ← getPos
+        return (none, { c with state := .done, eoc := header - here })
     else contentErr
   else
     match length with
@@ -143,7 +147,7 @@ def processValueBody (c : Cons) (op : Tag → Content → Prog (α × Content))
         if constructed && c.mode == .cer then contentErr
         else
           let content : Content :=
-            if constructed then .cons ⟨.definite, c.mode⟩ else .prim c.mode
+            if constructed then .cons ⟨.definite, c.mode, 0⟩ else .prim c.mode
           let (res, content') ← op tag content
           content'.exhausted
           setLimit (limit.map (· - len))
@@ -151,7 +155,7 @@ def processValueBody (c : Cons) (op : Tag → Content → Prog (α × Content))
     | .indefinite =>
       if !constructed || c.mode == .der then contentErr
       else
-        let (res, content') ← op tag (.cons ⟨.indefinite, c.mode⟩)
+        let (res, content') ← op tag (.cons ⟨.indefinite, c.mode, 0⟩)
         content'.exhausted
         return (some res, c)
 
@@ -161,6 +165,7 @@ def processValueBody (c : Cons) (op : Tag → Content → Prog (α × Content))
 def processNextValue (c : Cons) (expected : Option Tag)
     (op : Tag → Content → Prog (α × Content)) : Prog (Option α × Cons) := do
   if ← c.isExhausted then return (none, c)
+  let header ← getPos
   let hdr ← (match expected with
     | some e => do
       match ← e.takeFromIf with
@@ -171,7 +176,7 @@ def processNextValue (c : Cons) (expected : Option Tag)
   | none => return (none, c)
   | some (tag, constructed) =>
     let length ← Length.takeFrom c.mode
-    processValueBody c op tag constructed length
+    processValueBody c op header tag constructed length
 
 /-- `Constructed::mandatory` and the `None => Err(..)` arms of the mandatory readers -/
 def mandatory (p : Prog (Option α × Cons)) : Prog (α × Cons) := do
@@ -220,7 +225,9 @@ def capture (c : Cons) (op : Cons → Prog Cons) : Prog (Bytes × Cons) := do
   capBegin
   let c' ← op c
   let bytes ← capEnd
-  return (bytes, { c with state := c'.state })
+  -- if the closure has read the end-of-contents marker of this value, it is cut off
+  let bytes := if c'.state = c.state then bytes else bytes.take (bytes.length - c'.eoc)
+  return (bytes, { c with state := c'.state, eoc := c'.eoc })
 
 /-! ### skip_opt -/
 
@@ -293,7 +300,15 @@ def skipLoop (c : Cons) (filter : σ → Tag → Bool → Nat → Option σ) :
 def skipOpt (c : Cons) (filter : σ → Tag → Bool → Nat → Option σ) (st : σ) (fuel : Nat) :
     Prog (Option Unit × Cons × σ) := do
   if ← c.isExhausted then return (none, c, st)
-  skipLoop c filter fuel [] st
+  -- `header`: the position of the first header; only the first header can turn out to be the
+  -- end-of-contents marker of this value (the stack is empty only then), and `eoc_len` is set right
+  -- where the state changes, i.e. with the source where `skipLoop` leaves it
+  let header ← getPos
+  let (r, c', st') ← skipLoop c filter fuel [] st
+  if c'.state = c.state then return (r, c', st')
+  else
+    let here ← getPos
+    return (r, { c' with eoc := header - here }, st')
 
 /-- `Constructed::skip` -/
 def skip (c : Cons) (filter : σ → Tag → Bool → Nat → Option σ) (st : σ) (fuel : Nat) :
@@ -327,7 +342,7 @@ def captureAll (c : Cons) (fuel : Nat) : Prog (Bytes × Cons) :=
 
 /-- `Constructed::decode` / `Mode::decode` on a fresh `LimitedSource` without limit -/
 def decodeTop (mode : Mode) (op : Cons → Prog (α × Cons)) : Prog α := do
-  let (a, c') ← op ⟨.unbounded, mode⟩
+  let (a, c') ← op ⟨.unbounded, mode, 0⟩
   c'.exhausted
   pure a
 
